@@ -122,7 +122,8 @@ class SigmaCorrelationCondition:
         unknown_keys = d_keys.difference(ops).difference({"field", "percentile"})
         if unknown_keys:
             raise sigma_exceptions.SigmaCorrelationConditionError(
-                "Sigma correlation condition contains invalid items: " + ", ".join(unknown_keys),
+                "Sigma correlation condition contains invalid items: "
+                + ", ".join(sorted(str(key) for key in unknown_keys)),
                 source=source,
             )
 
